@@ -627,6 +627,50 @@ fn table_checks(stats: &mut Stats, out: &mut Vec<Violation>) -> usize {
         problems.extend(ctx.problems);
         count += ctx.count;
     }
+    // user types that are named like the standard ones, registered next to the standard table:
+    // each must be answered for itself (its own size and alignment), the standard types must
+    // keep their answers, and a table that lacks them must not answer for them
+    {
+        let attempt = catch_unwind(AssertUnwindSafe(|| {
+            let mut t = StaticTypeResolver::new();
+            t.add_std_types();
+            t.add_type_allow_uninit::<vtypes::string::String>();
+            t.add_type::<vtypes::option::Option<u8>>();
+            t.add_type::<vtypes::vec::Vec<u16>>();
+            t.add_type::<vtypes::boxed::Box<bool>>();
+            t.add_type::<vtypes::result::Result<u8, String>>();
+            t
+        }));
+        match attempt {
+            Err(p) => problems.push(format!("user types named like standard ones cannot be registered next to the standard table: {}", panic_text(p))),
+            Ok(t) => {
+                let rt: BTreeMap<String, DynamicTypeInfo> = serde_json::from_str(&t.to_json_string().unwrap()).unwrap();
+                let rt = StaticTypeResolver::from(rt);
+                let mut ctx = FamilyCtx { table: &t, round_trip: &rt, uninit: true, count: 0, problems: Vec::new() };
+                check_member::<vtypes::string::String>(&mut ctx);
+                ctx.uninit = false;
+                check_member::<vtypes::option::Option<u8>>(&mut ctx);
+                check_member::<vtypes::vec::Vec<u16>>(&mut ctx);
+                check_member::<vtypes::boxed::Box<bool>>(&mut ctx);
+                check_member::<vtypes::result::Result<u8, String>>(&mut ctx);
+                check_member::<String>(&mut ctx);
+                check_member::<Box<str>>(&mut ctx);
+                problems.extend(ctx.problems);
+                count += ctx.count;
+            }
+        }
+        if catch_unwind(AssertUnwindSafe(|| table.type_info::<vtypes::string::String>())).is_ok() {
+            problems.push("the standard table answers for the user type vtypes::string::String, which it does not hold".to_owned());
+        }
+        if catch_unwind(AssertUnwindSafe(|| table.type_info::<vtypes::vec::Vec<u16>>())).is_ok() {
+            problems.push("the standard table answers for the user type vtypes::vec::Vec<u16>, which it does not hold".to_owned());
+        }
+        let mut only_user = StaticTypeResolver::new();
+        only_user.add_type::<vtypes::string::String>();
+        if let Ok(info) = catch_unwind(AssertUnwindSafe(|| only_user.type_info::<String>())) {
+            problems.push(format!("a table that only holds vtypes::string::String answers {:?} for the standard String", info));
+        }
+    }
     for p in problems {
         out.push(Violation::new("C18", "type-table-not-faithful", p, &h));
     }
